@@ -21,6 +21,11 @@ pub(crate) fn any_node_4() -> Node {
     Node::new(Id::from(a), SocketAddrV4::new(kani::any::<u32>().into(), 6881))
 }
 
+/// same entry (the very same Arc): cheap identity instead of a deep field-by-field compare
+pub(crate) fn same(a: &Node, b: &Node) -> bool {
+    std::sync::Arc::ptr_eq(&a.0, &b.0)
+}
+
 /// the order the property states: BEP42-secure first, then XOR distance to the target
 pub(crate) fn in_order(p: &Node, q: &Node, t: &Id) -> bool {
     let (sp, sq) = (p.is_secure(), q.is_secure());
@@ -56,15 +61,15 @@ fn c11_o1_singleton_add() {
     if ns.len() == 2 {
         assert!(in_order(&ns[0], &ns[1], &t), "C11.O1 accumulator ordered secure-first then XOR distance");
         assert!(!refused, "C11.O1 per-IP rule respected");
-        let has_first = ns[0] == first || ns[1] == first;
-        let has_second = ns[0] == second || ns[1] == second;
+        let has_first = same(&ns[0], &first) || same(&ns[1], &first);
+        let has_second = same(&ns[0], &second) || same(&ns[1], &second);
         assert!(has_first && has_second, "C11.O1 accumulator holds exactly the old node and the new one");
     } else {
-        assert!(ns[0] == first, "C11.O1 existing node kept");
+        assert!(same(&ns[0], &first), "C11.O1 existing node kept");
         assert!(refused || same_id, "C11.O1 a new acceptable node is inserted");
     }
-    kani::cover!(ns.len() == 2 && ns[0] == second);
-    kani::cover!(ns.len() == 2 && ns[0] == first && !first.is_secure());
+    kani::cover!(ns.len() == 2 && same(&ns[0], &second));
+    kani::cover!(ns.len() == 2 && same(&ns[0], &first) && !first.is_secure());
     kani::cover!(ns.len() == 2 && second.is_secure() && !first.is_secure());
     kani::cover!(ns.len() == 1 && refused);
     std::mem::forget(c);
@@ -111,17 +116,17 @@ fn c11_o2_inductive_add_2() {
         assert!(in_order(&ns[1], &ns[2], &t), "C11.O2 accumulator stays ordered");
         assert!(!refused, "C11.O2 per-IP rule respected");
         // old nodes kept, in order, and x present
-        let p0 = if ns[0] == n0 { 0 } else if ns[1] == n0 { 1 } else { 3 };
-        let p1 = if ns[1] == n1 { 1 } else if ns[2] == n1 { 2 } else { 3 };
+        let p0 = if same(&ns[0], &n0) { 0 } else if same(&ns[1], &n0) { 1 } else { 3 };
+        let p1 = if same(&ns[1], &n1) { 1 } else if same(&ns[2], &n1) { 2 } else { 3 };
         assert!(p0 < p1 && p1 < 3, "C11.O2 old nodes kept in order");
-        assert!(ns[0] == x || ns[1] == x || ns[2] == x, "C11.O2 new node present");
+        assert!(same(&ns[0], &x) || same(&ns[1], &x) || same(&ns[2], &x), "C11.O2 new node present");
     } else {
-        assert!(ns[0] == n0 && ns[1] == n1, "C11.O2 old nodes kept in order");
+        assert!(same(&ns[0], &n0) && same(&ns[1], &n1), "C11.O2 old nodes kept in order");
         assert!(refused || id_present, "C11.O2 a new acceptable node is inserted");
     }
-    kani::cover!(ns.len() == 3 && ns[0] == x);
-    kani::cover!(ns.len() == 3 && ns[1] == x);
-    kani::cover!(ns.len() == 3 && ns[2] == x);
+    kani::cover!(ns.len() == 3 && same(&ns[0], &x));
+    kani::cover!(ns.len() == 3 && same(&ns[1], &x));
+    kani::cover!(ns.len() == 3 && same(&ns[2], &x));
     kani::cover!(ns.len() == 3 && n0.is_secure() && !n1.is_secure());
     kani::cover!(ns.len() == 2 && refused);
     std::mem::forget(c);
